@@ -42,7 +42,7 @@ def specAll (P : Params) (cfg : Cfg) (tag : Tag) (fs : List Fld) (init : Val) (s
 /-- … with the nested-struct JSON shortcut: the collecting oracle on the type with the shortcut fields hidden from
     the bind and the decoded structs in their place (as `specOKJ`) -/
 def specAllJ (P : Params) (cfg : Cfg) (tag : Tag) (fs : List Fld) (init : Val) (s : Src) (o : ObsAll) : Bool :=
-  let sc := shortcuts P tag fs s
+  let sc := shortcuts P cfg tag fs s
   if sc.all Option.isNone then specAll P cfg tag fs init s o
   else match init with
     | .struct ivs => specAll P cfg tag (hideFs fs sc) (.struct (placeVals ivs sc)) s o
